@@ -174,6 +174,69 @@ theorem include_paths_resolved_against_projDir (W : World) (L : String) (chain :
   · rw [hj]
   · rw [ha] at hrelr; cases hrelr
 
+/-! ## round 5, second step: `Rel` between absolute paths never fails (`rel_abs_total`), so for a `project_directory` that is
+absent or relative the working directory of the sub-load is always relative and non-empty — the hypotheses of the two-stage
+theorem are discharged, and the absolute alternative disappears -/
+
+theorem localDir_relative (W : World) (L X : String) (hL : Include.isAbs L = true) (hX : Include.isAbs X = true) :
+    let D := if statDir W X then X else dir X
+    localDir W L X ≠ "" ∧ Include.isAbs (localDir W L X) = false ∧
+      Include.join L (localDir W L X) = Include.clean D := by
+  intro D
+  have hD : Include.isAbs D = true := by
+    simp only [D]; split
+    · exact hX
+    · exact isAbs_dir X hX
+  have hpath : (if statDir W (localAbs L X) then localAbs L X else localAbs L (dir X)) = D := by
+    simp only [D, localAbs_of_abs L X hX, localAbs_of_abs L (dir X) (isAbs_dir X hX)]
+  obtain ⟨r, hr, hne, hrel⟩ := rel_abs_total L D hL hD
+  simp only [localDir, hpath, hr]
+  exact ⟨hne, hrel, join_rel_abs L D r hL hD hr⟩
+
+/-- **include_anchor_is_projDir_rel_partial**: `project_directory` absent or relative, the named directory exists ⇒ the
+sub-load's working directory is a non-empty *relative* path and `Join(L, relwd) = Clean(projDir)` -/
+theorem include_anchor_is_projDir_rel_partial (W : World) (L : String) (chain : List String) (r : IncCfg) (pl : Plan)
+    (p0 : String) (rest : List String) (hL : Include.isAbs L = true) (hp : r.path = p0 :: rest)
+    (hpd : Include.isAbs r.projectDirectory = false)
+    (hex : PlanDirsExist W L r p0) (h : plan W L L chain r = .ok pl) :
+    pl.relwd ≠ "" ∧ Include.isAbs pl.relwd = false ∧ Include.join L pl.relwd = Include.clean pl.projDir := by
+  obtain ⟨_, h0, _, hrel⟩ := include_paths_anchor W L L chain r pl p0 rest hp h
+  by_cases he : r.projectDirectory = ""
+  · obtain ⟨hproj, hrelwd⟩ := h0 he
+    have hX := isAbs_localAbs L p0 hL
+    have := localDir_relative W L (localAbs L p0) hL hX
+    simp only [hex.1 he] at this
+    rw [hproj, hrelwd]
+    simpa using this
+  · obtain ⟨hproj, hrelwd⟩ := hrel he hpd
+    have hXe : localAbs L r.projectDirectory = Include.join L r.projectDirectory := by
+      simp only [localAbs, hpd]; rfl
+    have hX : Include.isAbs (Include.join L r.projectDirectory) = true := isAbs_join_left L _ hL
+    have hd := hex.2 he hpd
+    rw [hXe] at hd
+    have := localDir_relative W L (Include.join L r.projectDirectory) hL hX
+    simp only [hd, if_true] at this
+    have hsame : localDir W L r.projectDirectory = localDir W L (Include.join L r.projectDirectory) := by
+      simp only [localDir, hXe, localAbs_of_abs L _ hX, hd, if_true]
+    rw [hproj, hrelwd, hsame, clean_join L _ hL]
+    rw [clean_join L _ hL] at this
+    exact this
+
+/-- **include_paths_resolved_against_projDir_rel** — the same chain with no hypothesis on `relwd`: for an entry whose
+`project_directory` is absent or relative (and exists), every tree of the included model, resolved by the sub-load and
+then by the parent, is the one-stage resolution against the included project directory -/
+theorem include_paths_resolved_against_projDir_rel (W : World) (L : String) (chain : List String) (r : IncCfg) (pl : Plan)
+    (p0 : String) (rest : List String) (hL : Include.isAbs L = true) (hp : r.path = p0 :: rest)
+    (hpd : Include.isAbs r.projectDirectory = false)
+    (hex : PlanDirsExist W L r p0) (h : plan W L L chain r = .ok pl)
+    (home : Option Paths.Str) (hhome : ∀ x, home = some x → x ≠ [])
+    (p : TPath) (d v : Val)
+    (h1 : Paths.walk CV.Gen.resolvers (cfgAt home pl.relwd) p d = .ok v) :
+    Paths.walk CV.Gen.resolvers (cfgAt home L) p v =
+      Paths.walk CV.Gen.resolvers (cfgAt home (Include.clean pl.projDir)) p d := by
+  obtain ⟨hne, hrel, _⟩ := include_anchor_is_projDir_rel_partial W L chain r pl p0 rest hL hp hpd hex h
+  exact include_paths_resolved_against_projDir W L chain r pl p0 rest hL hp hex h home hhome hne hrel p d v h1
+
 /-- `baseDir` is the local loader's directory in every call `loadYamlFile` makes: the root load passes
 `workingDir = L`, a nested load a relative `workingDir` -/
 theorem baseDir_root (L : String) (hL : Include.isAbs L = true) : baseDir L L = L := by
